@@ -35,7 +35,7 @@ for root, dirs, files in os.walk(src):
 print("NEW:", *new, sep="\n  ")
 print("CHANGED (vertical or other):", *changed_own, sep="\n  ")
 print("CHANGED SHARED:", *changed_shared, sep="\n  ")
-for rel in changed_shared:
+for rel in (changed_shared if "--diff" in sys.argv else []):
     if rel in ("lean/Main.lean", "lean/PetgraphModel.lean", "harness/src/main.rs", "harness/Cargo.lock", "MANIFEST.json"):
         continue
     print("=" * 30, rel)
